@@ -2,6 +2,7 @@
 // ANY length (Kani proves the same on the real types with real derive code, payload length <= 2).
 use vstd::prelude::*;
 use vstd::std_specs::convert::FromSpecImpl;
+use std::marker::PhantomData;
 
 verus! {
 
@@ -131,6 +132,119 @@ impl KeyValueResult {
         ensures
             self is Ok ==> r == Ok::<(Vec<String>, u64), KeyValueError>((self->response->ListKeys_keys, self->response->ListKeys_next_cursor)), // [C17/verus/unwrap_list_keys/page-and-cursor-unchanged]
             self is Err ==> r == Err::<(Vec<String>, u64), KeyValueError>(self->error), // [C17/verus/unwrap_list_keys/error-passed-through]
+//@end
+}
+
+// ------------------------------------------------------------------ the command API: emission half (command.rs)
+// Each call builds ONE request for the operation of the corresponding kind carrying the given
+// key / value / prefix / cursor unchanged, and maps the shell's answer with the matching
+// unwrap_* (proved above). What a RequestBuilder does with its operation and mapping function is
+// crux_core's (Command::request_from_shell, RequestBuilder::map: async - opaque here).
+//@extract id=kv.KeyValueOperation file=crux_kv/src/lib.rs item="enum KeyValueOperation"
+//@rule X2.inline-serde-attr * s/#\[serde\([^\]]*\)\]\s*//
+//@end
+
+pub mod crux_core_m {
+    use super::*;
+    /// crux_core::command::RequestBuilder<Effect, Event, impl Future<Output = T>>, by its output type
+    #[verifier::external_body]
+    #[verifier::accept_recursive_types(Effect)]
+    #[verifier::accept_recursive_types(Event)]
+    #[verifier::accept_recursive_types(T)]
+    pub struct RequestBuilder<Effect, Event, T> { _p: core::marker::PhantomData<(Effect, Event, T)> }
+    /// the one operation the built command will request from the shell
+    pub uninterp spec fn builder_op<Effect, Event, T>(b: RequestBuilder<Effect, Event, T>) -> KeyValueOperation;
+    /// the built command hands the app `u` when the shell answers `t`
+    pub uninterp spec fn builder_maps<Effect, Event, U>(b: RequestBuilder<Effect, Event, U>, t: KeyValueResult, u: U) -> bool;
+    /// the builder came straight from request_from_shell: the answer is handed over as it is
+    pub uninterp spec fn builder_fresh<Effect, Event>(b: RequestBuilder<Effect, Event, KeyValueResult>) -> bool;
+
+    pub struct Command;
+    impl Command {
+        // ASSUMED (crux_core/src/command/mod.rs): one request for exactly this operation
+        #[verifier::external_body]
+        pub fn request_from_shell<Effect, Event>(operation: KeyValueOperation) -> (r: RequestBuilder<Effect, Event, KeyValueResult>)
+            ensures builder_op(r) == operation, builder_fresh(r),
+        { unimplemented!() }
+    }
+    impl<Effect, Event> RequestBuilder<Effect, Event, KeyValueResult> {
+        // ASSUMED (crux_core/src/command/builder.rs): same request, answer passed through f
+        #[verifier::external_body]
+        pub fn map<U, F: FnOnce(KeyValueResult) -> U>(self, f: F) -> (r: RequestBuilder<Effect, Event, U>)
+            requires builder_fresh(self),
+            ensures
+                builder_op(r) == builder_op(self),
+                forall|t: KeyValueResult, u: U| #![auto] builder_maps(r, t, u) <==> call_ensures(f, (t,), u),
+        { unimplemented!() }
+    }
+}
+use crux_core_m::{builder_maps, builder_op, Command, RequestBuilder};
+
+/// what the caller's key converts to (`impl Into<String>` is the caller's conversion: uninterpreted)
+pub uninterp spec fn string_of<K>(k: K) -> String;
+/// `key.into()` with its result named (rule X16)
+#[verifier::external_body]
+pub fn into_string<K: Into<String>>(k: K) -> (r: String)
+    ensures r == string_of(k),
+{ unimplemented!() }
+
+//@extract id=cmd.KeyValue file=crux_kv/src/command.rs item="struct KeyValue"
+//@end
+
+impl<Effect, Event> KeyValue<Effect, Event> {
+//@extract id=command::get file=crux_kv/src/command.rs within="impl<Effect, Event> KeyValue<Effect, Event>" item="fn get" props=C17
+//@expect pub fn get( key: impl Into<String>, ) -> RequestBuilder<Effect, Event, impl Future<Output = DataResult>>
+//@sig fn get<K: Into<String>>(key: K) -> (r: RequestBuilder<Effect, Event, Result<Option<Vec<u8>>, KeyValueError>>)
+//@contract
+        ensures
+            builder_op(r) == (KeyValueOperation::Get { key: string_of(key) }), // [C17/command-get/one-Get-operation-carrying-the-given-key]
+            forall|t: KeyValueResult, u: Result<Option<Vec<u8>>, KeyValueError>| #![auto] builder_maps(r, t, u) ==> call_ensures(KeyValueResult::unwrap_get, (t,), u), // [C17/command-get/the-answer-is-mapped-by-unwrap_get]
+//@rule X16.into 1 s/key\.into\(\)/into_string(key)/
+//@rule X1.closure-contract 1 s#\|kv_result\| kv_result\.(unwrap_\w+)\(\)#|kv_result: KeyValueResult| -> (res: Result<Option<Vec<u8>>, KeyValueError>) requires call_requires(KeyValueResult::\1, (kv_result,)) ensures call_ensures(KeyValueResult::\1, (kv_result,), res) { kv_result.\1() }#
+//@end
+
+//@extract id=command::set file=crux_kv/src/command.rs within="impl<Effect, Event> KeyValue<Effect, Event>" item="fn set" props=C17
+//@expect pub fn set( key: impl Into<String>, value: Vec<u8>, ) -> RequestBuilder<Effect, Event, impl Future<Output = DataResult>>
+//@sig fn set<K: Into<String>>(key: K, value: Vec<u8>) -> (r: RequestBuilder<Effect, Event, Result<Option<Vec<u8>>, KeyValueError>>)
+//@contract
+        ensures
+            builder_op(r) == (KeyValueOperation::Set { key: string_of(key), value: value }), // [C17/command-set/one-Set-operation-carrying-the-given-key-and-the-same-value-bytes]
+            forall|t: KeyValueResult, u: Result<Option<Vec<u8>>, KeyValueError>| #![auto] builder_maps(r, t, u) ==> call_ensures(KeyValueResult::unwrap_set, (t,), u), // [C17/command-set/the-answer-is-mapped-by-unwrap_set]
+//@rule X16.into 1 s/key\.into\(\)/into_string(key)/
+//@rule X1.closure-contract 1 s#\|kv_result\| kv_result\.(unwrap_\w+)\(\)#|kv_result: KeyValueResult| -> (res: Result<Option<Vec<u8>>, KeyValueError>) requires call_requires(KeyValueResult::\1, (kv_result,)) ensures call_ensures(KeyValueResult::\1, (kv_result,), res) { kv_result.\1() }#
+//@end
+
+//@extract id=command::delete file=crux_kv/src/command.rs within="impl<Effect, Event> KeyValue<Effect, Event>" item="fn delete" props=C17
+//@expect pub fn delete( key: impl Into<String>, ) -> RequestBuilder<Effect, Event, impl Future<Output = DataResult>>
+//@sig fn delete<K: Into<String>>(key: K) -> (r: RequestBuilder<Effect, Event, Result<Option<Vec<u8>>, KeyValueError>>)
+//@contract
+        ensures
+            builder_op(r) == (KeyValueOperation::Delete { key: string_of(key) }), // [C17/command-delete/one-Delete-operation-carrying-the-given-key]
+            forall|t: KeyValueResult, u: Result<Option<Vec<u8>>, KeyValueError>| #![auto] builder_maps(r, t, u) ==> call_ensures(KeyValueResult::unwrap_delete, (t,), u), // [C17/command-delete/the-answer-is-mapped-by-unwrap_delete]
+//@rule X16.into 1 s/key\.into\(\)/into_string(key)/
+//@rule X1.closure-contract 1 s#\|kv_result\| kv_result\.(unwrap_\w+)\(\)#|kv_result: KeyValueResult| -> (res: Result<Option<Vec<u8>>, KeyValueError>) requires call_requires(KeyValueResult::\1, (kv_result,)) ensures call_ensures(KeyValueResult::\1, (kv_result,), res) { kv_result.\1() }#
+//@end
+
+//@extract id=command::exists file=crux_kv/src/command.rs within="impl<Effect, Event> KeyValue<Effect, Event>" item="fn exists" props=C17
+//@expect pub fn exists( key: impl Into<String>, ) -> RequestBuilder<Effect, Event, impl Future<Output = StatusResult>>
+//@sig fn exists<K: Into<String>>(key: K) -> (r: RequestBuilder<Effect, Event, Result<bool, KeyValueError>>)
+//@contract
+        ensures
+            builder_op(r) == (KeyValueOperation::Exists { key: string_of(key) }), // [C17/command-exists/one-Exists-operation-carrying-the-given-key]
+            forall|t: KeyValueResult, u: Result<bool, KeyValueError>| #![auto] builder_maps(r, t, u) ==> call_ensures(KeyValueResult::unwrap_exists, (t,), u), // [C17/command-exists/the-answer-is-mapped-by-unwrap_exists]
+//@rule X16.into 1 s/key\.into\(\)/into_string(key)/
+//@rule X1.closure-contract 1 s#\|kv_result\| kv_result\.(unwrap_\w+)\(\)#|kv_result: KeyValueResult| -> (res: Result<bool, KeyValueError>) requires call_requires(KeyValueResult::\1, (kv_result,)) ensures call_ensures(KeyValueResult::\1, (kv_result,), res) { kv_result.\1() }#
+//@end
+
+//@extract id=command::list_keys file=crux_kv/src/command.rs within="impl<Effect, Event> KeyValue<Effect, Event>" item="fn list_keys" props=C17
+//@expect pub fn list_keys( prefix: impl Into<String>, cursor: u64, ) -> RequestBuilder<Effect, Event, impl Future<Output = ListResult>>
+//@sig fn list_keys<K: Into<String>>(prefix: K, cursor: u64) -> (r: RequestBuilder<Effect, Event, Result<(Vec<String>, u64), KeyValueError>>)
+//@contract
+        ensures
+            builder_op(r) == (KeyValueOperation::ListKeys { prefix: string_of(prefix), cursor: cursor }), // [C17/command-list_keys/one-ListKeys-operation-carrying-the-given-prefix-and-cursor]
+            forall|t: KeyValueResult, u: Result<(Vec<String>, u64), KeyValueError>| #![auto] builder_maps(r, t, u) ==> call_ensures(KeyValueResult::unwrap_list_keys, (t,), u), // [C17/command-list_keys/the-answer-is-mapped-by-unwrap_list_keys]
+//@rule X16.into 1 s/prefix\.into\(\)/into_string(prefix)/
+//@rule X1.closure-contract 1 s#\|kv_result\| kv_result\.(unwrap_\w+)\(\)#|kv_result: KeyValueResult| -> (res: Result<(Vec<String>, u64), KeyValueError>) requires call_requires(KeyValueResult::\1, (kv_result,)) ensures call_ensures(KeyValueResult::\1, (kv_result,), res) { kv_result.\1() }#
 //@end
 }
 
